@@ -21,6 +21,9 @@ With s = the logical time at which the stop call returned, refuted by:
   g  the stop call itself raises;
   h  after s the script goes back to waiting for a clock tick more than once
      (the delay / time-of-day wait in progress was not abandoned);
+  j  a job queued the moment the stop call has returned (the stopped job may
+     still be winding down) never starts, does not run to completion, or -- when
+     it is an endless script -- a stop aimed at it later is lost;
   i  after s the job thread stays blocked (unable to run, as opposed to merely
      not scheduled) for more than 5 virtual seconds + 2 ticks.
 """
@@ -73,7 +76,14 @@ ASSUMPTIONS = [
 OWN_STEPS = 5000
 PROMPT_SECONDS = 5.0
 DEVICES = [dict(label='A', group='G', location='P'),
-           dict(label='B', group='G', location='P')]
+           dict(label='B', group='G', location='P'),
+           dict(label='C', group='H', location='P')]
+# a script queued the moment the stop call has returned (the stopped job may
+# still be winding down)
+EARLY = {'finite': 'on "C" off "C" print 5',
+         'infinite': 'repeat begin on "C" off "C" end',
+         'infinite-timed': 'time 0.2 repeat begin on "C" end'}
+EARLY_LOG = [('C', 'set_power', True), ('C', 'set_power', False), ('out', 5)]
 SHAPES = {
     'straight': ' '.join(['on "A" off "A"'] * 12) + ' print 1',
     'infinite': 'repeat begin on "A" off "A" end',
@@ -94,10 +104,10 @@ SUCCESSOR_LOG = [('B', 'set_power', True), ('B', 'set_power', False),
                  ('out', 7)]
 
 
-def successor_events(log, marker):
+def successor_events(log, marker, dev='B'):
     out = []
     for e in log:
-        if e[0] == 'dev' and e[1] == 'B' and e[4] == 'ok':
+        if e[0] == 'dev' and e[1] == dev and e[4] == 'ok':
             out.append((e[1], e[2], bool(e[3][0])))
         elif e[0] == 'out' and e[1] == 'out' and e[2] == marker:
             out.append(('out', marker))
@@ -105,7 +115,8 @@ def successor_events(log, marker):
 
 
 def run_scenario(seed, shape, entry, delay_steps, tick, policy, depth,
-                 with_successor):
+                 with_successor, early=None, early_steps=0,
+                 early_entry='stop_current'):
     env.THREAD_EXCEPTIONS.clear()
     env.MACHINE_STOPS.clear()
     s = sched.begin(seed, policy=policy, depth=depth, max_steps=300000)
@@ -164,6 +175,9 @@ def run_scenario(seed, shape, entry, delay_steps, tick, policy, depth,
             rec1.state, rec1.loc.split(':')[0] if rec1.loc else '?')
         res['own_steps_at_stop'] = rec1.steps
         blocked_at_stop = rec1.blocked_time
+        agent_e = None
+        if early:
+            agent_e = jc.add_job(ScriptJob.from_string(EARLY[early]), 'early')
         s.block_until(lambda: rec1.done or
                       rec1.steps - res['own_steps_at_stop'] > OWN_STEPS,
                       'stopped job')
@@ -173,6 +187,33 @@ def run_scenario(seed, shape, entry, delay_steps, tick, policy, depth,
         res['tick'] = tick
         res['own_steps_used'] = rec1.steps - res['own_steps_at_stop']
         res['log_at_job1_end'] = len(simnet.LOG)
+        if rec1.done and early and early != 'finite':
+            # the job queued right after the stop starts (behind the
+            # successor, if any), and a stop aimed at it later is not lost
+            s0 = s.steps
+            s.block_until(lambda: (agent_e._thread is not None
+                                   and agent_e.is_running())
+                          or s.steps - s0 > 30000, 'early job to start')
+            res['early_started'] = agent_e._thread is not None
+            if res['early_started']:
+                rec_e = agent_e._thread._rec
+                for _ in range(early_steps):
+                    s.switch('driver')
+                try:
+                    if early_entry == 'stop_current':
+                        res['early_stop_result'] = app.stop_current()
+                    elif early_entry == 'stop_job':
+                        res['early_stop_result'] = app.stop_script('early')
+                    else:
+                        res['early_stop_result'] = app.stop_all()
+                except sched.SchedAbort:
+                    raise
+                except Exception as ex:
+                    res['stop_raised'] = 'second stop: ' + repr(ex)
+                own = rec_e.steps
+                s.block_until(lambda: rec_e.done or rec_e.steps - own > OWN_STEPS,
+                              'early job to stop')
+                res['early_done'] = rec_e.done
         if rec1.done:
             # successor / quiescence
             # (bounded in scheduling steps: virtual time may jump)
@@ -184,6 +225,7 @@ def run_scenario(seed, shape, entry, delay_steps, tick, policy, depth,
                           or s.steps - s0 > 30000, 'quiescence')
             res['has_jobs'] = jc.has_jobs()
             res['successor'] = successor_events(simnet.LOG, 7)
+            res['early_log'] = successor_events(simnet.LOG, 5, 'C')
             res['successor_after_stop'] = successor_events(
                 [e for e, st in zip(simnet.LOG, simnet.STAMPS)
                  if st[0] > res['s']], 7)
@@ -295,6 +337,30 @@ def check(ctx, res, shape, entry, with_successor, replay):
                               '{}: {} issued by an instruction that started '
                               'after the stop'.format(desc, e[:3]), replay)
                 return False
+    if res.get('early_started') is False:
+        ctx.violation('f:job-queued-after-stop-never-starts',
+                      '{}: a job queued right after the stop returned had not '
+                      'started 30000 scheduling steps after the stopped job '
+                      'ended'.format(desc), replay)
+        return False
+    if res.get('early_done') is False:
+        ctx.violation('c:later-stop-lost',
+                      '{}: the job queued right after the stop returned was '
+                      'itself asked to stop later ({} returned {}) and is '
+                      'still running after {} of its own scheduling steps'
+                      .format(desc, replay.get('early_entry'),
+                              res.get('early_stop_result'), OWN_STEPS), replay)
+        return False
+    if res.get('early_done'):
+        ctx.count('early_jobs_stopped_later')
+    if replay.get('early') == 'finite':
+        if res.get('early_log') != EARLY_LOG:
+            ctx.violation('f:job-queued-after-stop-incomplete',
+                          '{}: a job queued right after the stop returned '
+                          'produced {}'.format(desc, res.get('early_log')),
+                          replay)
+            return False
+        ctx.count('early_jobs_completed')
     if entry == 'stop_all':
         # anything *started* after stop-all (a successor that was already
         # running when stop-all arrived is the current job and is stopped; it
@@ -351,11 +417,20 @@ def run_shard(ctx):
         policy = rng.choice(['random', 'random', 'pct'])
         depth = rng.choice([1, 2, 3])
         seed = ctx.seed * 1000003 + i
+        early = rng.choice([None, None, 'finite', 'infinite',
+                            'infinite-timed'])
+        early_steps = rng.randint(0, 80)
+        early_entry = rng.choice(['stop_current', 'stop_current', 'stop_job',
+                                  'stop_all'])
         res = run_scenario(seed, shape, entry, delay, tick, policy, depth,
-                           with_successor)
+                           with_successor, early, early_steps, early_entry)
         replay = {'shape': shape, 'entry': entry, 'delay_steps': delay,
                   'tick': tick, 'policy': policy, 'depth': depth, 'seed': seed,
-                  'successor': with_successor, 'script': SHAPES[shape]}
+                  'successor': with_successor, 'script': SHAPES[shape],
+                  'early': early, 'early_steps': early_steps,
+                  'early_entry': early_entry}
+        if early:
+            ctx.count('early:' + early)
         ok = check(ctx, res, shape, entry, with_successor, replay)
         ctx.case(sig(res['schedule']), nontrivial=bool(res.get('alive_at_stop')))
         ctx.count('scheduler_steps', res['steps'])
@@ -385,6 +460,7 @@ def finalize(merged):
                                                 key=lambda kv: -kv[1])[:60]),
         'distinct_stop_positions': len(pos)}
     for need in ('stops_while_alive', 'successors_ok', 'entry:stop_all',
+                 'early_jobs_stopped_later', 'early_jobs_completed',
                  'shape:time-of-day', 'scenarios_ok'):
         if not c.get(need) and not merged['violations']:
             merged['inconclusive'].append('monitor observed nothing: ' + need)
@@ -398,7 +474,9 @@ def replay(doc):
     r = doc['replay']
     ctx = Ctx('C09', 'quick', 0, 0, 1)
     res = run_scenario(r['seed'], r['shape'], r['entry'], r['delay_steps'],
-                       r['tick'], r['policy'], r['depth'], r['successor'])
+                       r['tick'], r['policy'], r['depth'], r['successor'],
+                       r.get('early'), r.get('early_steps', 0),
+                       r.get('early_entry', 'stop_current'))
     print({k: v for k, v in res.items() if k not in ('log', 'stamps', 'starts',
                                                      'schedule')})
     check(ctx, res, r['shape'], r['entry'], r['successor'], r)
